@@ -1103,6 +1103,9 @@ impl Scenario for C12 {
             History::Sequence(s) => s.len() >= 2,
         }
     }
+    fn label(_plan: &Plan) -> String {
+        "Curve order-switch history".into()
+    }
     fn rule() -> String {
         "one evaluation = one seeded curve (2..8 nodes at distinct dates with gaps of 1 day..30 years supplied in shuffled order; float, user-Dual or user-Dual2 node values; one of five interpolation rules; built through CurveDF::try_new or through the Python-facing Curve constructor at order 0/1/2; with or without index_base) on which EVERY sequence of set_ad_order switches over {0,1,2} up to depth 3 (quick) / 4-5 (thorough) is executed depth-first; after every switch every query date (each node date, midpoint and two interior points of every interval, two dates before the first and two after the last node) is looked up and compared (value, kind, variable names, gradient, Hessian, index_value) with the closed form evaluated in the reference AD under the model's tag state. Distinct = distinct plan digest; non-trivial = history depth >= 2.".into()
     }
